@@ -20,9 +20,10 @@ def _plane_surf(d, n, off, rng=None, flip_p=0.25):
     return sid
 
 
-def add_lattice_universe(d, rng, u, next_id, new_universe, kind=None, lat_tr_p=0.0, lat_trcl_p=0.0, rot_classes=None):
+def add_lattice_universe(d, rng, u, next_id, new_universe, kind=None, lat_tr_p=0.0, lat_trcl_p=0.0, rot_classes=None,
+                         big_p=0.0):
     """universe `u` := one lattice cell; elements filled with fresh universes / own universe / 0"""
-    kind = kind or rng.choice(['rect1', 'rect2', 'rect2', 'rect3', 'skew2', 'hex', 'hex3'])
+    kind = kind or rng.choice(['rect1', 'rect2', 'rect2', 'rect3', 'skew2', 'tilt2', 'hex', 'hex3'])
     cell_id = next_id[0]
     next_id[0] += rng.choice([1, 2])
     centre = [rng.choice(G.HALF) / 2 for _ in range(3)]
@@ -42,10 +43,14 @@ def add_lattice_universe(d, rng, u, next_id, new_universe, kind=None, lat_tr_p=0
             d.surfs.append(D.Surf(sid, mn, list(centre) + ps[3:]))
         leaves = [('s', -sid)]
         dim = 3
-    elif kind.startswith('rect') or kind == 'skew2':
-        dim = {'rect1': 1, 'rect2': 2, 'rect3': 3, 'skew2': 2}[kind]
+    elif kind.startswith('rect') or kind in ('skew2', 'tilt2'):
+        dim = {'rect1': 1, 'rect2': 2, 'rect3': 3, 'skew2': 2, 'tilt2': 2}[kind]
         if kind == 'skew2':
             normals = rng.choice([([2., -1., 0.], [0., 1., 0.]), ([1., 0., 0.], [1., 2., 0.]), ([1., 1., 0.], [0., 0., 1.])])
+        elif kind == 'tilt2':
+            # two pairs of planes whose common direction (the axis of the infinite prism) is not a coordinate axis
+            normals = rng.choice([([.6, 0., .8], [0., 1., 0.]), ([0., .6, .8], [1., 0., 0.]), ([.6, .8, 0.], [0., 0., 1.]),
+                                  ([.6, 0., .8], [.8, 0., -.6]), ([1., 1., 0.], [0., 0., 1.]), ([.6, .8, 0.], [1., 0., 0.])])
         else:
             axes = rng.sample([0, 1, 2], dim)
             normals = []
@@ -69,9 +74,17 @@ def add_lattice_universe(d, rng, u, next_id, new_universe, kind=None, lat_tr_p=0
         leaves = [r for pair in refs for r in pair]
     else:
         # hexagonal prism: three pairs of planes at 60°, optional top/bottom
-        rr = rng.choice([1.0, 1.5, 2.0])
+        rr = rng.choice([1.0, 1.5, 2.0, 2.5])
         s3 = math.sqrt(3.0)
-        perm = rng.choice([(0, 1, 2), (1, 2, 0), (2, 0, 1)])
+        # orientation, listing order and senses come from a generator of their own, which a later hexagonal lattice of
+        # the same deck takes over half of the time: prisms that differ in size only
+        import random as _random
+        oseed = getattr(d, '_hex_oseed', None)
+        if oseed is None or rng.random() < 0.5:
+            oseed = rng.getrandbits(32)
+            d._hex_oseed = oseed
+        orng = _random.Random(oseed)
+        perm = orng.choice([(0, 1, 2), (1, 2, 0), (2, 0, 1)])
 
         def P(v):
             out = [0.0, 0.0, 0.0]
@@ -82,19 +95,19 @@ def add_lattice_universe(d, rng, u, next_id, new_universe, kind=None, lat_tr_p=0
         pairs = []
         for n in dirs:
             c0 = sum(a * b for a, b in zip(n, centre))
-            hi = _plane_surf(d, n, c0 + rr, rng)
-            lo = _plane_surf(d, n, c0 - rr, rng)
+            hi = _plane_surf(d, n, c0 + rr, orng)
+            lo = _plane_surf(d, n, c0 - rr, orng)
             pairs.append([('s', -hi), ('s', lo)])
         # MCNP order: side 1, its opposite, side 2 (adjacent choice), its opposite, the last two in any order
-        first = rng.randrange(3)
+        first = orng.randrange(3)
         p1 = pairs[first]
         others = [pairs[i] for i in range(3) if i != first]
-        rng.shuffle(others)
+        orng.shuffle(others)
         p2, p3 = others
         for p in (p1, p2, p3):
-            if rng.random() < 0.5:
+            if orng.random() < 0.5:
                 p.reverse()
-        if rng.random() < 0.5:
+        if orng.random() < 0.5:
             p3 = list(reversed(p3))
         leaves = p1 + p2 + p3
         dim = 2
@@ -118,6 +131,10 @@ def add_lattice_universe(d, rng, u, next_id, new_universe, kind=None, lat_tr_p=0
         lo = rng.randint(-2, 1)
         hi = lo + rng.choice([0, 1, 1, 2])
         ranges.append((lo, hi))
+    if big_p and rng.random() < big_p and not getattr(d, '_big_lattice', False):
+        # now and then ONE lattice of some size (30–50 elements): long GEOMCOMP / VOLU lists, many generated cells
+        d._big_lattice = True
+        ranges = [(lo, lo + rng.choice([4, 5, 6])) if k < 2 else (lo, min(hi, lo + 1)) for k, (lo, hi) in enumerate(ranges)]
     if dim < 3 and rng.random() < 0.3:
         # trailing trivial ranges are tolerated by the converter only when every real dimension has a
         # non-degenerate range (known finding F21 otherwise)
@@ -136,7 +153,7 @@ def add_lattice_universe(d, rng, u, next_id, new_universe, kind=None, lat_tr_p=0
     us = [rng.choice(pool) for _ in range(n_el)]
     mat = rng.choice([1, 2, 3])
     cell = D.Cell(cell_id, e, mat=mat, rho=rng.choice(['-2.7', '-1.0', '0.05']), imp=1, u=u,
-                  fill={'ranges': ranges, 'us': us, 'tr': None}, lat=1 if kind.startswith(('rect', 'skew', 'rpp', 'box')) else 2)
+                  fill={'ranges': ranges, 'us': us, 'tr': None}, lat=1 if kind.startswith(('rect', 'skew', 'tilt', 'rpp', 'box')) else 2)
     if rng.random() < lat_tr_p:
         m, cls = G.random_motion(rng, rng.choice(rot_classes) if rot_classes else ('mirror' if rng.random() < 0.1 else None))
         cell.fill['tr'] = m
